@@ -742,6 +742,11 @@ func cmdReplay(args []string) int {
 			v, harness = execFresh(c.ID(), sc, execLimit(id))
 		}
 	}
+	// a recorded violation that does not show at once is tried a few more times: the tree it was found
+	// on may have timing of its own (goroutines it starts itself), which no replay file can pin down
+	for i := 0; i < 5 && v == nil && harness == "" && sc.Expect != nil; i++ {
+		v, harness = execFresh(c.ID(), sc, execLimit(id))
+	}
 	if harness != "" {
 		fmt.Println("MACHINERY:", harness)
 		return 2
